@@ -17,7 +17,7 @@ from isla.helpers import merge_intervals
 from returns.maybe import Some, Nothing
 
 M = sys.maxsize
-Q_QUIRK = True   # `value_or(lambda: False)` quirk present in /repo (see design_notes/C15.md); flip when fixed
+Q_QUIRK = False   # `value_or(lambda: False)` quirk present in /repo (see design_notes/C15.md); flip when fixed
 IMPORTS = "Str Outcome IvRe Intervals IvShape"
 
 # --------------------------------------------------------------------------
